@@ -795,6 +795,8 @@ def pool_capacity_obligation(E, mod, Qn):
     n = None
     if isinstance(expr, _ast.Call) and _ast.unparse(expr.func).split('.')[-1] == 'ThreadPoolExecutor':
         arg = expr.args[0] if expr.args else next((k.value for k in expr.keywords if k.arg == 'max_workers'), None)
+        if isinstance(arg, _ast.Name) and isinstance(mod.assigns.get(arg.id), _ast.Constant):
+            arg = mod.assigns[arg.id]          # a named module constant
         if isinstance(arg, _ast.Constant) and isinstance(arg.value, int):
             n = arg.value
     E.oblige(Qn + '/resource.cross_loop_pool_has_a_fixed_capacity_of_at_least_32', z3.BoolVal(n is not None and n >= 32),
